@@ -20,8 +20,9 @@
 EXTENDS Integers, Sequences, FiniteSets, TLC
 
 CONSTANTS W, Steps, C0, MayFail,
-          ContinueOnFail   \* TRUE: the caller consumes a delivered exception and goes on (the runner alone);
+          ContinueOnFail,  \* TRUE: the caller consumes a delivered exception and goes on (the runner alone);
                            \* FALSE: scheduler() lets it propagate and the run ends
+          OverIssue        \* TRUE: the code before 7cc4d53 (one initial submission per worker whenever a step is left)
 
 Units == 1..(Steps + W)
 Wrk   == 1..W
@@ -49,11 +50,12 @@ SubmitNext == LET u == nsub + 1 IN
   /\ fut' = [fut EXCEPT ![u] = "pending"] /\ nsub' = u
 
 (* scheduler(): the initial submissions *)
-InitSubmit == /\ phase = "init" /\ nsub < W /\ cstep < Steps
+InitGo == nsub < W /\ (IF OverIssue THEN cstep < Steps ELSE cstep + nsub < Steps)
+InitSubmit == /\ phase = "init" /\ InitGo
               /\ SubmitNext
               /\ phase' = IF nsub + 1 = W THEN "loop" ELSE "init"
               /\ UNCHANGED <<running, nexec, ndeliv, nset, cstep, alive>>
-InitSkip   == /\ phase = "init" /\ nsub = 0 /\ ~(cstep < Steps) /\ phase' = "loop"
+InitSkip   == /\ phase = "init" /\ nsub < W /\ ~InitGo /\ phase' = "loop"
               /\ UNCHANGED <<queue, running, fut, flist, nexec, ndeliv, nset, nsub, cstep, alive>>
 
 Take(w) == /\ alive[w] /\ running[w] = None /\ queue # <<>>
@@ -107,10 +109,10 @@ FairSpec == Spec /\ WF_vars(Next)
 ExecOnce    == \A u \in Units : nexec[u] <= 1 /\ nset[u] <= nexec[u]
 DeliverOnce == \A u \in Units : ndeliv[u] <= 1 /\ (ndeliv[u] = 1 => nset[u] = 1)
 NothingLost == (phase = "stopped") => \A u \in 1..nsub : nexec[u] = 1 /\ nset[u] = 1
-StepsExact  == (phase \in {"stopping", "stopped"} /\ Steps - C0 >= W) =>
+StepsExact  == (phase \in {"stopping", "stopped"} /\ Steps >= W /\ Steps >= C0) =>
                   /\ cstep = Steps /\ nsub = Steps - C0 /\ flist = <<>> /\ queue = <<>>
                   /\ \A u \in 1..nsub : ndeliv[u] = 1
-NeverTooMany == cstep <= Steps /\ nsub <= (IF Steps - C0 >= W THEN Steps - C0 ELSE W)
+NeverTooMany == cstep <= Steps /\ ((Steps >= W /\ Steps >= C0) => (nsub <= Steps - C0 /\ cstep + Len(flist) <= Steps))
 CleanStop   == (phase = "stopped") => (queue = <<>> /\ \A w \in Wrk : running[w] = None)
 Terminates  == <>(phase \in {"stopped", "raised"})
 =============================================================================
